@@ -111,6 +111,8 @@ type Strat struct {
 	Name string // "trend.MacdStrategy"
 	Cfgs func(thorough bool) [][]float64
 	New  func(cfg []float64) strategy.Strategy
+	// Periods lists the configuration components that are periods (nil = all of them).
+	Periods []int
 	// Warm is the number of leading Hold actions (for n >= Warm).
 	Warm func(cfg []float64) int
 	// Rule restates the documented decision rule over the documented indicator
